@@ -278,7 +278,7 @@ class WorldB:
 
     # -------------------------------------------------------------- observation
 
-    def _observe(self, site: str, args: tuple) -> None:
+    def _observe(self, site: str, args: tuple, kwargs: dict | None = None) -> None:
         if site != "AbstractCompiler.register_compiled_circuit":
             return
         comp, sc, cc = args[0], args[1], args[2]
